@@ -60,6 +60,11 @@ PROP_MODULES = ["Scico.Props.C02"]
 EXTRA_TARGETS = ["Drv.Prox"]
 DRIVER = "Prox"
 FILES = [
+    "scico/solver.py",
+    "scico/linop/_diag.py",
+    "scico/functional/_tvnorm.py",
+    "scico/functional/_proxavg.py",
+    "scico/functional/_denoiser.py",
     "scico/functional/_norm.py",
     "scico/functional/_indicator.py",
     "scico/functional/_dist.py",
@@ -696,24 +701,34 @@ def firm_pair(ctx, rng, case):
 
 
 def cg_case(ctx, model, rng):
-    """`SquaredL2Loss(y, A=MatrixOperator, W, scale).prox(v, lam)` (cg on `(I + 2 lam scale AᵀWA) x = v + 2 lam scale AᵀW y`):
-    the residual of the DOCUMENTED system at the returned point, computed by the model (`sqL2LossSysResidual`), must be at the level
-    of the cg tolerance, and the conclusion of C02_sqL2loss_cg_bound (`‖x - p‖ ≤ ‖residual(x)‖`, p = exact solution) must hold."""
+    """`SquaredL2Loss(y, A=MatrixOperator, W, scale).prox(v, lam)` (cg on `(I + 2 lam scale AᴴWA) x = v + 2 lam scale AᴴW y`), real and complex:
+    the residual of the DOCUMENTED system at the returned point, computed by the model (`sqL2LossSysResidual`; complex data through the
+    realification `[[Ar, -Ai], [Ai, Ar]]`, whose real adjoint is the realification of `Aᴴ`), must be at the level of the cg tolerance, and the
+    conclusion of C02_sqL2loss_cg_bound / C02_sqL2loss_cg_general (`‖x - p‖ ≤ ‖residual(x)‖`, p = exact solution) must hold."""
     import scico.numpy as snp
     from scico import linop, loss
 
     m, n = int(rng.integers(1, 6)), int(rng.integers(1, 6))
-    A = common.dyadic(rng, (m, n), bits=5, scale=2.0)
+    cplx = bool(rng.random() < 0.3)
+
+    def dyc(shape, scale):
+        k = int(np.prod(shape))
+        z = common.dyadic(rng, (k,), bits=5, scale=scale)
+        if cplx:
+            z = z + 1j * common.dyadic(rng, (k,), bits=5, scale=scale)
+        return z.reshape(shape)
+
+    A = dyc((m, n), 2.0)
     if rng.random() < 0.2:
         A[:, int(rng.integers(0, n))] = 0.0  # rank-deficient: the system stays well posed (matrix ⪰ I)
-    y, v = pg.dy(rng, m), pg.dy(rng, n)
+    y, v = dyc((m,), 4.0), dyc((n,), 4.0)
     w = np.abs(pg.dy(rng, m, 3.0, zeros=0.25)) if rng.random() < 0.6 else None
     lam = pg.pick(rng, pg.LAMS)
     P = {"scale": pg.pick(rng, pg.SCALES), "rescale": pg.rescale_ops(rng)}
     kw = pg.pick(rng, [None, None, {"tol": 1e-9}, {"tol": 1e-7, "maxiter": 50}, {"maxiter": 3}])
-    x0 = pg.dy(rng, n) if rng.random() < 0.3 else None
-    desc = {"fam": "sql2loss-cg", "m": m, "n": n, "A": A.tolist(), "y": y.tolist(), "v": v.tolist(), "w": None if w is None else w.tolist(),
-            "lam": lam, "params": P, "prox_kwargs": kw, "x0": None if x0 is None else x0.tolist()}
+    x0 = dyc((n,), 4.0) if rng.random() < 0.3 else None
+    desc = {"fam": "sql2loss-cg", "m": m, "n": n, "cplx": cplx, "A": pc._js(A), "y": pc._js(y), "v": pc._js(v), "w": None if w is None else w.tolist(),
+            "lam": lam, "params": P, "prox_kwargs": kw, "x0": None if x0 is None else pc._js(x0)}
     with warnings.catch_warnings():
         warnings.simplefilter("ignore")
         try:
@@ -725,7 +740,7 @@ def cg_case(ctx, model, rng):
                 # history on the SAME object: an earlier prox with another lam / input, optionally a set_scale in between -
                 # nothing that depends on lam or scale (system operator, right-hand side) may survive from the earlier call
                 lam0 = pg.pick(rng, [t for t in pg.LAMS if t != lam])
-                L.prox(snp.array(pg.dy(rng, n)), lam0)
+                L.prox(snp.array(dyc((n,), 4.0)), lam0)
                 hist.append("prox@other-lam")
                 if rng.random() < 0.5:
                     c_new = pg.pick(rng, pg.SCALES)
@@ -734,7 +749,8 @@ def cg_case(ctx, model, rng):
                     hist.append("set_scale")
             desc["history"] = hist
             desc["params_in_force"] = P
-            x = np.asarray(L.prox(snp.array(v), lam, **({"x0": snp.array(x0)} if x0 is not None else {})), dtype=np.float64)
+            x = np.asarray(L.prox(snp.array(v), lam, **({"x0": snp.array(x0)} if x0 is not None else {})))
+            x = x.astype(np.complex128 if cplx else np.float64)
         except Exception as e:  # noqa: BLE001
             if not _raised_in_scico(e):
                 raise
@@ -742,45 +758,49 @@ def cg_case(ctx, model, rng):
                            "failing": {"reason": "SquaredL2Loss.prox raised for a linear operator", "exception": f"{type(e).__name__}: {str(e)[:300]}"}},
                           True, "prox.sql2loss.cg: implementation raised")
             return
-        Fx = lam * float(L(snp.array(x))) + 0.5 * float(np.sum((x - v) ** 2))
+        Fx = lam * float(L(snp.array(x))) + 0.5 * float(np.sum(np.abs(x - v) ** 2))
     sc = pc.eff_scale(model, P)
     ww = np.ones(m) if w is None else w
-    r_model = np.asarray(common.b2fs(model.call("sql2loss_sys", m=m, n=n, a=common.fs2b(A.ravel()), w=common.fs2b(ww), y=common.fs2b(y),
-                                                v=common.fs2b(v), x=common.fs2b(x), lam=common.f2b(lam), scale=common.f2b(sc))["out"]))
+    st = (lambda z: np.concatenate([np.real(z), np.imag(z)])) if cplx else (lambda z: np.real(z))
+    AR = np.block([[A.real, -A.imag], [A.imag, A.real]]) if cplx else np.real(A)
+    wR = np.concatenate([ww, ww]) if cplx else ww
+    mR, nR = AR.shape
+    r_model = np.asarray(common.b2fs(model.call("sql2loss_sys", m=mR, n=nR, a=common.fs2b(AR.ravel()), w=common.fs2b(wR), y=common.fs2b(st(y)),
+                                                v=common.fs2b(st(v)), x=common.fs2b(st(x)), lam=common.f2b(lam), scale=common.f2b(sc))["out"]))
     c = 2.0 * sc * lam
-    Msys = np.eye(n) + c * A.T @ (ww[:, None] * A)
-    b = v + c * A.T @ (ww * y)
+    Msys = np.eye(n) + c * A.conj().T @ (ww[:, None] * A)
+    b = v + c * A.conj().T @ (ww * y)
     p = np.linalg.solve(Msys, b)
-    r_np = Msys @ x - b
+    r_np = st(Msys @ x - b)
     dfl = pc.defaults(model)
     tol = float((kw or {}).get("tol", float(dfl[("SquaredL2Loss.default_prox_kwargs", "tol")])))
-    capped = (kw or {}).get("maxiter", int(dfl[("SquaredL2Loss.default_prox_kwargs", "maxiter")])) < n  # cg may stop before convergence: only the bound of the theorem applies
-    ctx.count("cg:" + ("capped-maxiter" if capped else f"tol={tol:g}") + (":x0" if x0 is not None else "") + (":W" if w is not None else "")
-              + "".join(":" + h for h in hist))
-    ctx.case({k: desc[k] for k in ("fam", "m", "n", "lam", "params", "prox_kwargs")}, "cg-" + hashlib.sha1(json.dumps(desc, sort_keys=True).encode()).hexdigest()[:16])
+    capped = (kw or {}).get("maxiter", int(dfl[("SquaredL2Loss.default_prox_kwargs", "maxiter")])) < nR  # cg may stop before convergence
+    ctx.count("cg:" + ("complex:" if cplx else "real:") + ("capped-maxiter" if capped else f"tol={tol:g}") + (":x0" if x0 is not None else "")
+              + (":W" if w is not None else "") + "".join(":" + h for h in hist))
+    ctx.case({k: desc[k] for k in ("fam", "m", "n", "cplx", "lam", "params", "prox_kwargs")}, "cg-" + hashlib.sha1(json.dumps(desc, sort_keys=True).encode()).hexdigest()[:16])
 
     def orc(_c):
         with warnings.catch_warnings():
             warnings.simplefilter("ignore")
-            Fp = lam * float(L(snp.array(p))) + 0.5 * float(np.sum((p - v) ** 2))
+            Fp = lam * float(L(snp.array(p))) + 0.5 * float(np.sum(np.abs(p - v) ** 2))
         if Fp < Fx - 1e-7 * (1.0 + abs(Fx)):
             return {"reason": "the solution of the documented system has a lower objective than the point returned by prox (cg path)",
-                    "v": v.tolist(), "lam": lam, "p": x.tolist(), "objective(p)": Fx, "better_x": p.tolist(), "objective(x)": Fp}
+                    "v": pc._js(v), "lam": lam, "p": pc._js(x), "objective(p)": Fx, "better_x": pc._js(p), "objective(x)": Fp}
         return None
 
-    if not common.allclose(r_model, r_np, k=max(m * n, 1), rtol=1e-9):
+    if not common.allclose(r_model, r_np, k=max(mR * nR, 1), rtol=1e-9):
         ctx.disagree("prox.sql2loss.cg.system", desc, r_np.tolist(), r_model.tolist(), oracle=orc,
                      note="model residual of the documented system differs from the numpy evaluation (harness/model bug or scale history)")
         return
     rn, en, bn = float(np.linalg.norm(r_model)), float(np.linalg.norm(x - p)), float(np.linalg.norm(b))
-    # conclusion of C02_sqL2loss_cg_bound on the real output
-    if en > rn * (1 + 1e-6) + 1e-12 * (1 + bn):
+    # conclusion of the theorem on the real output (numerical sanity of the harness's exact solve: floor 1e-9, never a verdict on scico)
+    if en > rn * (1 + 1e-6) + 1e-9 * (1 + bn + float(np.linalg.norm(p))):
         raise common.Infra(f"cg bound violated numerically: |x-p|={en} > |res|={rn}")
-    if not capped and rn > 100.0 * tol * bn + 1e-12:
+    if not capped and rn > 100.0 * tol * bn + 1e-12 * (1 + bn):
         ctx.count("disagree:sql2loss-cg")
-        ctx.disagree("prox.sql2loss.cg.residual", dict(desc, x=x.tolist()), {"residual_norm": rn, "rhs_norm": bn, "tol": tol},
+        ctx.disagree("prox.sql2loss.cg.residual", dict(desc, x=pc._js(x)), {"residual_norm": rn, "rhs_norm": bn, "tol": tol},
                      "residual of the documented system <= 100*tol*|rhs|", oracle=orc,
-                     note="the point returned by the cg path does not solve (I + 2 lam scale A^T W A) x = v + 2 lam scale A^T W y")
+                     note="the point returned by the cg path does not solve (I + 2 lam scale A^H W A) x = v + 2 lam scale A^H W y")
 
 
 def grid_cases():
